@@ -20,6 +20,28 @@ def options(**kw):
     return SimpleNamespace(**base)
 
 
+class OperatorScriptExhausted(Exception):
+    pass
+
+
+class ScriptedStdin(io.StringIO):
+    """stdin of a scripted operator: after the script ends a few empty reads (EOF)
+    are served, then the operator 'walks away' so that a prompt loop cannot spin
+    forever inside the harness"""
+
+    def __init__(self, text):
+        super().__init__(text)
+        self._empties = 0
+
+    def readline(self, *a):
+        r = super().readline(*a)
+        if r == "":
+            self._empties += 1
+            if self._empties > 5:
+                raise OperatorScriptExhausted("operator script exhausted")
+        return r
+
+
 class AdminEnv:
     def __init__(self, device, platform="ledger"):
         self.device = device
@@ -54,7 +76,7 @@ class AdminEnv:
         import admin.misc as misc
         buf = io.StringIO()
         old_stdin = sys.stdin
-        sys.stdin = io.StringIO(stdin)
+        sys.stdin = ScriptedStdin(stdin)
         answers = list(getpass_answers or [])
         old_gp = misc.getpass
 
